@@ -30,7 +30,7 @@ class A:
 
     def __init__(self, ret=None, requires=None, ensures=None, decreases=None, spec_raw=None, loops=None, closures=None,
                  body_begin=None, body_end=None, arm_begin=None, arm_end=None, after=None, before=None, attrs=None,
-                 rewrites=None, props=(), external_body=False, note=None, params_mut=None, no_canary=False, arm_rewrites=None, stub=False, arm_replace=None):
+                 rewrites=None, props=(), external_body=False, note=None, params_mut=None, no_canary=False, arm_rewrites=None, stub=False, arm_replace=None, method_table=None):
         self.ret = ret                      # name for the return value
         self.requires = requires or []      # list of (name, text)
         self.ensures = ensures or []        # list of (name, text)
@@ -50,6 +50,7 @@ class A:
         self.external_body = external_body
         self.note = note
         self.no_canary = no_canary
+        self.method_table = method_table      # method name -> trampoline: the body is mechanically rewritten (vgen.mcall); R2m
         self.arm_replace = arm_replace or {}     # pattern -> (new body text, reason): the arm's body is NOT verified (dropped, replaced by a trampoline call)
         self.stub = stub                    # keep the signature verbatim, drop the body (external_body + unimplemented!()): callee known by contract only
         if stub:
@@ -118,11 +119,11 @@ class Unit:
     def raw(self, text, label='prelude'):
         self.ops.append(('raw', text, label))
 
-    def extract(self, file, selector, fns=None, all_fns=False, annot=None, keep_attrs=(), rename=None, inside=None, only_header=False, default_props=(), others=None, skip=()):
+    def extract(self, file, selector, fns=None, all_fns=False, annot=None, keep_attrs=(), rename=None, inside=None, only_header=False, default_props=(), others=None, skip=(), qual_prefix=None):
         """fns: dict name -> A  (for impl / mod / trait: emit header + only these fns (+ assoc types));
         annot: A for a free fn / whole item;  inside: selector of an enclosing mod (e.g. 'mod foo')."""
         self.ops.append(('extract', dict(file=file, selector=selector, fns=fns, all_fns=all_fns, annot=annot, keep_attrs=keep_attrs,
-                                         rename=rename, inside=inside, default_props=tuple(default_props), others=others, skip=tuple(skip))))
+                                         rename=rename, inside=inside, default_props=tuple(default_props), others=others, skip=tuple(skip), qual_prefix=qual_prefix)))
 
     def assume_note(self, text):
         self.assumption_notes.append(text)
@@ -540,8 +541,23 @@ def generate(unit: Unit, canary=None) -> Generated:
                     emit(p)
                 emit(f'\n//@@END {iid}:hdr\n')
                 g.items.append(dict(id=f'{iid}:hdr', file=spec['file'], lo=it.start, hi=it.body_open + 1, label=label, rewrites=[]))
+                if it.kind == 'mod':
+                    emit('use super::*;\n')
                 seen = set()
+                occ = {}
                 for m in members:
+                    # overloads of a #[dispatch] module share one name: they are addressed as name#k and renamed name_ovk
+                    if it.kind == 'mod' and m.kind == 'fn':
+                        k = occ.get(m.name, 0)
+                        occ[m.name] = k + 1
+                        key = f'{m.name}#{k}'
+                        if key in want:
+                            mid = f'{iid}:{m.name}_ov{k}'
+                            a = want[key]
+                            a.rewrites = list(a.rewrites) + [(f'fn {m.name}', f'fn {m.name}_ov{k}', 'D4: #[dispatch] overloads share one name (the macro mangles them); renamed for the single-file unit')]
+                            _emit_item(unit, g, src, m, mid, label + '::' + key, a, (spec['qual_prefix'] + '::' if spec['qual_prefix'] else '') + f'{it.name}::{m.name}_ov{k}', emit, canary, spec)
+                            seen.add(key)
+                            continue
                     take = False
                     gated = any(_gated_feature(src, a0, a1) for (a0, a1) in m.attrs)
                     if m.kind == 'fn' and m.name in spec['skip']:
@@ -659,6 +675,16 @@ def _emit_item(unit, g, src, it, iid, label, a, fnq, emit, canary, spec):
                 apply_rewrites_tokens(src, r[2], r[3], rws, em, rw_applied, label + f' arm `{pat}`')
                 if len(rw_applied) - n0 != len(rws):
                     raise LostAnchor(f'{fnq}: arm `{pat}`: a declared rewrite did not match')
+        if a.method_table and not a.external_body:
+            from . import mcall
+            blo, bhi = it.body_open + 1, src.br[it.body_open]
+            if bhi > blo:
+                old_body = src.text_of(blo, bhi)
+                new_body, counts = mcall.rewrite_method_calls(old_body, a.method_table)
+                if counts:
+                    em.replace_toks(blo, bhi, new_body)
+                    rw_applied.append(dict(item=label, old=None, new=new_body.strip()[:160], count=1, positions=[(blo, bhi)],
+                                           reason='R2m: std/chrono method calls mechanically rewritten into trampoline calls: ' + ', '.join(f'{m} x{c}' for m, c in counts)))
         if a.arm_replace and not a.external_body:
             blo, bhi = it.body_open + 1, src.br[it.body_open]
             for key, (new, reason) in a.arm_replace.items():
